@@ -157,8 +157,11 @@ def c12(tier, seed):
     for name in ("NutsMC_kv", "NutsMC_ls", "NutsMC_st", "NutsMC_zs"):
         mc_cfg(res, name, inv=["TypeOK"], props=["NoEffect"], consts=None if q else {"MaxTx": "= 3"}, timeout=1800)
     mc_cfg(res, "NutsMC_st", expect="NoEffect", inv=[], props=["NoEffect"], consts={"Dev": '= {"F-C06-2"}'}, label="NutsMC_st+F-C06-2")
+    commit_mc(res, "Commit(faults)", inv=["TypeOK", "FaultAtomic"], consts=None if q else {"MaxTx": "4", "MaxRecs": "3", "Cap": "3"})
+    commit_mc(res, "Commit+IndexDuringWrite", consts={"Sw": '{"IndexDuringWrite"}'}, inv=["FaultAtomic"], expect="FaultAtomic")
+    commit_mc(res, "Commit+SyncFaultOnMark(F-C12-4)", consts={"Sw": '{"SyncFaultOnMark"}'}, inv=["FaultAtomic"], expect="FaultAtomic")
     fams = [("fail", []), ("failkv", ["-mode", "keyval"]), ("failkv", ["-mode", "keyonly"])]
-    shards = fam_shards(fams, seed, 2 if q else 24, 3 if q else 4, 40 if q else 120)
+    shards = [["%proto"] + a for a in fam_shards(fams, seed, 2 if q else 24, 3 if q else 4, 40 if q else 120)]
     rs = core.drive_and_validate(res, shards, core.dev_set(), "a transaction that ended without a successful commit changed a read (now or after reopen)",
                                  "histories with rollbacks, oversized entries, injected write/sync faults, read-only transactions calling mutators, calls on finished transactions")
     res.cov["samples"] = core.sample_events(rs[0]["trace"], 6, ops={"commit", "rollback"})
@@ -218,12 +221,16 @@ def c09(tier, seed):
     return res.finish()
 
 
-def crash_check(pid, tier, seed, fams, what, desc, during=None):
+def crash_check(pid, tier, seed, fams=None, what=None, desc=None, during=None, mc=None, proto=None):
     res = Result(pid, tier, seed)
     core.build()
     q = tier == "quick"
+    if mc:
+        mc(res, q)
     extra = [] if q else ["-alltorn"]
     shards = fam_shards([(f, a + extra) for f, a in fams], seed, 1 if q else 10, 2 if q else 3, 12 if q else 25)
+    # conformance of the commit protocol itself: hook-recorded file mutations of ordinary histories against Commit.tla
+    shards += [["%proto"] + a for a in fam_shards(proto or [], seed + 3, 1 if q else 8, 3, 30 if q else 80)]
     rs = core.drive_and_validate(res, shards, core.dev_set(), what, desc)
     res.cov["samples"] = [dict(e, o="...") for e in core.sample_events(rs[0]["trace"], 5, ops={"crash"})]
     res.cov["distinct_nontrivial"] = res.extra.get("nontrivial", {}).get("crash_images", 0)
@@ -237,32 +244,40 @@ def crash_check(pid, tier, seed, fams, what, desc, during=None):
 
 
 def c10(tier, seed):
-    res = crash_check("C10", tier, seed,
+    res = crash_check("C10", tier, seed, mc=lambda res, q: (
+        commit_mc(res, "Commit(SyncOn)", consts=None if q else {"MaxTx": "4", "MaxRecs": "3", "Cap": "3"}),
+        commit_mc(res, "Commit(SyncOff)", consts={"SyncOn": "FALSE"} if q else {"SyncOn": "FALSE", "MaxTx": "4", "MaxRecs": "3", "Cap": "3"}),
+        commit_mc(res, "Commit+DupIds", consts={"Sw": '{"DupIds"}'}, inv=["CrashAtomic"], expect="CrashAtomic"),
+        commit_mc(res, "Commit+TornTailAborts", consts={"Sw": '{"TornTailAborts"}'}, inv=["RecoverTotal"], expect="RecoverTotal")),
+        proto=[("mixedkv", ["-mode", "keyval"]), ("mixed", [])], fams=
                       [("crashkv", ["-mode", "keyval", "-rw", "fileio"]), ("crashkv", ["-mode", "keyonly", "-rw", "mmap"]),
                        ("crashkv", ["-mode", "keyval", "-rw", "mmap"]), ("crashkv", ["-mode", "keyonly", "-rw", "fileio"]),
                        ("crash", ["-rw", "fileio"]), ("crash", ["-rw", "mmap"])],
-                      "after a process crash Open failed, lost a returned transaction or showed part of an unfinished one",
-                      "workloads (multi-record transactions across rotations, rollbacks, oversized entries followed in the same millisecond by a committing transaction, reopen) with a crash at every file-mutation point")
+                      what="after a process crash Open failed, lost a returned transaction or showed part of an unfinished one",
+                      desc="workloads (multi-record transactions across rotations, rollbacks, oversized entries followed in the same millisecond by a committing transaction, reopen) with a crash at every file-mutation point")
     return res.finish()
 
 
 def c11(tier, seed):
-    res = crash_check("C11", tier, seed,
+    res = crash_check("C11", tier, seed, mc=lambda res, q: (
+        commit_mc(res, "Commit(SyncOn)", inv=["TypeOK", "Durable", "RecoverTotal"], consts=None if q else {"MaxTx": "4", "MaxRecs": "3", "Cap": "3"}),
+        commit_mc(res, "Commit+SyncOncePerTx", consts={"Sw": '{"SyncOncePerTx"}'}, inv=["Durable"], expect="Durable")),
+        proto=[("mixedkv", ["-mode", "keyonly"]), ("failkv", ["-mode", "keyval"])], fams=
                       [("powerkv", ["-mode", "keyval", "-rw", "fileio"]), ("powerkv", ["-mode", "keyonly", "-rw", "mmap"]),
                        ("powerkv", ["-mode", "keyonly", "-rw", "fileio"]), ("power", ["-rw", "fileio"]), ("power", ["-rw", "mmap"])],
-                      "after a power loss with SyncEnable Open failed, lost a returned transaction or showed part of an unfinished one",
-                      "SyncEnable workloads with power lost at every file-mutation point: files revert to their last sync, the unsynced tail dropped or torn, unsynced creations and removals kept or undone")
+                      what="after a power loss with SyncEnable Open failed, lost a returned transaction or showed part of an unfinished one",
+                      desc="SyncEnable workloads with power lost at every file-mutation point: files revert to their last sync, the unsynced tail dropped or torn, unsynced creations and removals kept or undone")
     res.assumptions += ["a sync of a file also makes its directory entry durable (the property's stated assumption)",
                         "power-loss images: unsynced writes are dropped, or the first of them kept torn at a record-field boundary; out-of-order persistence of several unsynced writes is not generated"]
     return res.finish()
 
 
 def c16(tier, seed):
-    res = crash_check("C16", tier, seed,
+    res = crash_check("C16", tier, seed, fams=
                       [("crashmergekv", ["-mode", "keyval", "-rw", "fileio"]), ("crashmergekv", ["-mode", "keyonly", "-rw", "mmap"]),
                        ("crashmergekv", ["-mode", "keyonly", "-rw", "fileio"]), ("crashmergeds", []), ("crashmerge", [])],
-                      "after a crash inside Merge the reopened database differs from the contents before Merge (or Open failed)",
-                      "workloads with Merge calls; a crash at every file mutation inside Merge (rewrites, creations, removals; torn writes)")
+                      what="after a crash inside Merge the reopened database differs from the contents before Merge (or Open failed)",
+                      desc="workloads with Merge calls; a crash at every file mutation inside Merge (rewrites, creations, removals; torn writes)")
     return res.finish()
 
 
@@ -410,6 +425,18 @@ def lock_mc(res, cfgname, label, consts=None, inv=None, props=None, expect=None,
     res.add_mc(label, core.tlc_mc("Lock", cfg, timeout=timeout), expect_violation=expect)
 
 
+def commit_mc(res, label, consts=None, inv=None, expect=None, timeout=1800):
+    import re
+    cfg = open(os.path.join(core.SPEC, "mc", "Commit_base.cfg")).read()
+    if inv is not None:
+        cfg = re.sub(r"(?m)^INVARIANTS .*$", "INVARIANTS " + " ".join(inv), cfg)
+    for k, v in (consts or {}).items():
+        cfg, n = re.subn(r"(?m)^  %s (=|<-) .*$" % re.escape(k), "  %s = %s" % (k, v), cfg)
+        if n != 1:
+            raise Infra("constant %s not found in Commit_base.cfg" % k)
+    res.add_mc(label, core.tlc_mc("Commit", cfg, timeout=timeout), expect_violation=expect)
+
+
 def conc_shards(fams, seed, nseed, hist, steps):
     return [["%conc"] + a for a in fam_shards(fams, seed, nseed, hist, steps)]
 
@@ -531,6 +558,62 @@ def c15(tier, seed):
 CHECKS = {"C21": c21, "C14": c14, "C17": c17, "C18": c18, "C02": c02, "C22": c22, "C20": c20, "C03": c03, "C19": c19, "C04": c04, "C10": c10, "C11": c11, "C16": c16, "C09": c09, "C15": c15, "C01": c01, "C05": c05, "C06": c06, "C07": c07, "C08": c08, "C12": c12, "C13": c13}
 
 
+def selftest(tier, seed):
+    """Demonstrates the binding: a corrupted recording must be rejected at the corrupted line."""
+    core.build()
+    work = core.scratch("verif-self-")
+    out = os.path.join(work, "t.ndjson")
+    core.drive(["-family", "failkv", "-mode", "keyval", "-seed", str(seed), "-hist", "2", "-steps", "30", "-proto",
+                "-out", out, "-summary", os.path.join(work, "s.json"), "-tmp", work])
+    ok = True
+
+    def expect_reject(name, path, module, mutate, extra=""):
+        nonlocal ok
+        lines = open(path).read().splitlines()
+        r0 = core.tlc_trace(path, dev=core.dev_set(), module=module, extra_consts=extra)
+        idx, new = mutate([json.loads(x) for x in lines])
+        bad = os.path.join(work, name + ".ndjson")
+        with open(bad, "w") as f:
+            f.write("\n".join(json.dumps(x) for x in new) + "\n")
+        r1 = core.tlc_trace(bad, dev=core.dev_set(), module=module, extra_consts=extra)
+        good = r0["accepted"] and not r1["accepted"] and r1["reached"] + 1 >= idx and r1["reached"] + 1 <= idx + 2
+        print("selftest %-28s original accepted=%s, corrupted rejected at line %d (corruption at line %d): %s" % (
+            name, r0["accepted"], r1["reached"] + 1, idx, "ok" if good else "FAILED"))
+        ok = ok and good
+
+    def flip_get(evs):
+        i = [k for k, e in enumerate(evs) if e.get("op") == "get" and not e.get("err")][5]
+        evs[i]["v"] = evs[i]["v"] + "~"
+        return i + 1, evs
+
+    def flip_err(evs):
+        i = [k for k, e in enumerate(evs) if e.get("op") == "get" and e.get("err")][3]
+        evs[i]["err"], evs[i]["v"] = False, "ghost"
+        return i + 1, evs
+
+    def drop_commit(evs):
+        i = [k for k, e in enumerate(evs) if e.get("op") == "commit" and not e.get("err")][2]
+        return i + 1, evs[:i] + evs[i + 1:]
+
+    def drop_sync(evs):
+        i = [k for k, e in enumerate(evs) if e.get("ev") == "sync" and not e.get("injected")][4]
+        return i + 1, evs[:i] + evs[i + 1:]
+
+    def move_mark(evs):
+        i = [k for k, e in enumerate(evs) if e.get("ev") == "write" and not e.get("committed")][0]
+        evs[i]["committed"] = True
+        return i + 1, evs
+
+    expect_reject("value-changed", out, "NutsTrace", flip_get)
+    expect_reject("absent-key-served", out, "NutsTrace", flip_err)
+    expect_reject("commit-event-removed", out, "NutsTrace", drop_commit)
+    p1 = out + ".proto1"
+    if os.path.exists(p1):
+        expect_reject("sync-event-removed", p1, "CommitTrace", drop_sync, "  SyncOn = TRUE\n")
+        expect_reject("commit-mark-on-first-record", p1, "CommitTrace", move_mark, "  SyncOn = TRUE\n")
+    return 0 if ok else 2
+
+
 def main(argv):
     ap = argparse.ArgumentParser()
     ap.add_argument("pid")
@@ -538,6 +621,8 @@ def main(argv):
     ap.add_argument("--seed", type=int, default=int(os.environ.get("VERIF_SEED", "1")))
     ap.add_argument("--replay")
     a = ap.parse_args(argv)
+    if a.pid == "selftest":
+        core.main_wrapper(lambda: selftest(a.tier, a.seed))
     if a.pid not in CHECKS:
         sys.stderr.write("unknown property %s\n" % a.pid)
         sys.exit(2)
